@@ -7,6 +7,7 @@ CONSTANTS
   MaxSubs = 4
   MaxOps = 7
   UsePlain = FALSE
+  UseBurst = TRUE
   UseBad = TRUE
 INVARIANTS TypeOK C13_OneActive ActiveRegistered RegOK
 PROPERTIES StepsOK
